@@ -565,3 +565,8 @@ func (cb *cbox) gainedThenInadmissible(k string, a []string, w0 int, req *vfSvcR
 	}
 	return false
 }
+
+func TestVerif_C18(t *testing.T) {
+	boxRun(t, "C18", boxMonFlags{c18: true}, boxOpts{events: 24, epochMax: 3}, vfSizes{Quick: 60, Thorough: 1500},
+		"every call of the pool handler is compared with the previous one: pools and namespaces (by value, order-free) must have changed; non-trivial = distinct delivered resource set")
+}
